@@ -56,10 +56,10 @@ var canaries = map[string][]canary{}
 // propertyCanaries lists, per property, the rules whose canaries are run
 // after the property's own analysis.
 var propertyCanaries = map[string][]string{
-	"C01": {"STRIDE.flatfill", "ALPHA.noread", "STRIDE.fullrange", "STRIDE.unitidx", "FLAG.unitdiag", "BETA.noread", "BETA.quickret", "BETA.scaleguard", "FLAG.neginc", "STRIDE.index", "STRIDE.len", "STRIDE.start", "STRIDE.rowoffset", "STRIDE.extent", "FLAG.trans", "TWIN.generated", "ASM.units", "ASM.lost"},
+	"C01": {"STRIDE.stepbound", "STRIDE.flatfill", "ALPHA.noread", "STRIDE.fullrange", "STRIDE.unitidx", "FLAG.unitdiag", "BETA.noread", "BETA.quickret", "BETA.scaleguard", "FLAG.neginc", "STRIDE.index", "STRIDE.len", "STRIDE.start", "STRIDE.rowoffset", "STRIDE.extent", "FLAG.trans", "TWIN.generated", "ASM.units", "ASM.lost"},
 	"C02": {"WORK.init", "FLAG.cholorder", "ARGS.callee", "FLAG.unset", "FLAG.unitdiag", "WORKSIZE.fallback", "OKFLOW.loopstatus", "FACTKIND.pair", "ARGS.order", "ARGS.lencheck", "ARGS.query", "LOOPIDX.unused", "OKFLOW.report", "STRIDE.vecinc", "WORKSIZE.min", "WORKSIZE.querylen"},
 	"C03": {"WORK.init", "FLAG.cholorder", "ARGS.callee", "FLAG.unset", "FLAG.unitdiag", "WORKSIZE.fallback", "GUARD.operand", "FLAG.uplomap", "STRIDE.veclda", "FACTKIND.pair", "LOOPIDX.origin", "ARGS.order", "ARGS.lencheck", "ARGS.query", "LOOPIDX.unused", "OKFLOW.report", "STRIDE.workld", "STRIDE.worknext", "WORKSIZE.min"},
-	"C04": {"MAT.access", "MAT.selfguard", "ZEROED.paths", "SWAP.cond", "STRIDE.contig", "TWIN.bounds", "NILRECV"},
+	"C04": {"STRIDE.stepbound", "BAND.rowcol", "MAT.access", "MAT.selfguard", "ZEROED.paths", "SWAP.cond", "STRIDE.contig", "TWIN.bounds", "NILRECV"},
 	"C05": {"MAT.doublepass", "OVERLAP.lattice", "MAT.guardorder", "FACT.alias", "OVERLAP.extent", "OVERLAP.guard", "MODSET.mat", "OVERLAP.symmetric", "TWIN.shadow"},
 	"C06": {"FACT.alias", "FACT.failstate", "INIT.state", "ERR.overwrite", "ERR.swallow", "FACT.deadloop", "FACT.reuse", "FLAG.unset", "OKFLOW.condpath", "FACT.condafter", "FACTKIND.pair", "OKFLOW.use", "OKFLOW.cond", "OKFLOW.report", "FACT.normorder", "FACT.state", "FACT.condunit", "NILRECV"},
 	"C07": {"MAT.access", "ARGS.callee", "ARGS.ldcols", "ARGS.workquery", "ARGS.condlen", "ARGS.arms", "ARGS.strict", "ARGS.fullrow", "WORKSIZE.querylen", "ARGS.order", "ARGS.lencheck", "ARGS.query", "MAT.order", "ASM.window", "ASM.tail", "STRIDE.len"},
@@ -109,6 +109,9 @@ func init() {
 		{"ARGS.ldcols", "lapack/gonum/dgesvd.go", "wantua && ldu < m", "wantua && ldu < minmn", func() *core.Result { return flagx.RunLdCols(def, core.Pkgs("./lapack/gonum")) }},
 		{"MAT.doublepass", "mat/vector.go", "\t\t\t\tv.setVec(i, amat.Data[ia]*bmat.Data[ib])\n\t\t\t\tia += amat.Inc\n\t\t\t\tib += bmat.Inc\n\t\t\t}\n\t\t\treturn\n", "\t\t\t\tv.setVec(i, amat.Data[ia]*bmat.Data[ib])\n\t\t\t\tia += amat.Inc\n\t\t\t\tib += bmat.Inc\n\t\t\t}\n", func() *core.Result { return matargs.RunDoublePass(def) }},
 		{"OVERLAP.lattice", "mat/shadow.go", "off%inc == 0", "off&inc == 0", func() *core.Result { return overlap.RunExtent(def) }},
+		{"MAT.guardorder", "mat/dense_arithmetic.go", "\tr, c := x.Len(), y.Len()\n\n\tm.reuseAsNonZeroed(r, c)", "\tr, c := x.Len(), y.Len()\n\n\tm.reuseAsZeroed(r, c)", func() *core.Result { return matargs.Run(def) }},
+		{"BAND.rowcol", "blas/gonum/level2float64.go", "\t\tfor i := 0; i < min(m, n+kL); i++ {\n\t\t\tl := max(0, kL-i)\n\t\t\tu := min(nCol, n+kL-i)\n\t\t\toff := max(0, i-kL)\n\t\t\tatmp := a[i*lda+l : i*lda+u]\n\t\t\tjx := kx", "\t\tfor i := 0; i < min(m, n+kL); i++ {\n\t\t\tl := max(0, kL-i)\n\t\t\tu := min(nCol, m+kL-i)\n\t\t\toff := max(0, i-kL)\n\t\t\tatmp := a[i*lda+l : i*lda+u]\n\t\t\tjx := kx", func() *core.Result { return flagx.RunBandCol(def, core.Pkgs("./blas/gonum")) }},
+		{"STRIDE.stepbound", "blas/gonum/level1float64.go", "\t\tfor ix := 0; ix < n*incX; ix += incX {\n\t\t\tx[ix] = 0", "\t\tfor ix := 0; ix < n; ix += incX {\n\t\t\tx[ix] = 0", func() *core.Result { return stride.RunStepBound(def, core.Pkgs("./blas/gonum")) }},
 		{"ARGS.workquery", "lapack/gonum/dgeqrf.go", "case len(work) < max(1, lwork):", "case len(work) < lwork:", func() *core.Result { return flagx.RunWorkQuery(def, core.Pkgs("./lapack/gonum")) }},
 		{"ARGS.callee", "lapack/gonum/dsytrd.go", "case len(d) < n:", "case len(d) < n-1:", func() *core.Result { return worksize.RunCallee(def, core.Pkgs("./lapack/gonum")) }},
 		{"GRAPHINV.together", "graph/simple/weighted_undirected.go", "\tif fm, ok := g.edges[fid]; ok {\n\t\tfm[tid] = e\n\t} else {", "\tif fm, ok := g.edges[fid]; ok {\n\t\t_, exists := fm[tid]\n\t\tfm[tid] = e\n\t\tif exists {\n\t\t\treturn\n\t\t}\n\t} else {", func() *core.Result { return graphinv.Run(def) }},
